@@ -451,17 +451,27 @@ def run_rec(case: Dict[str, Any]) -> Dict[str, Any]:
         return out
     reference = _guarded(in_process, 30.0)
     crossing = [build_record(spec) for spec in specs]
+
+    def content(record: Any) -> List[Any]:
+        return [str(record.seq), record.skip, len(record.get_cds_features())]
+
+    def finder(record: Any) -> List[Any]:
+        if record.id.startswith("bad"):
+            return ["fails"]
+        return ["finds", len(range(30, max(len(record.seq) - 100, 0), 300))]
+    given = [content(r) + [finder(r)] for r in (build_record(spec) for spec in specs)]   # separate copies: reading CDS fills caches
     pickled = [first_difference(canon(pickle.loads(pickle.dumps(r))), canon(r)) for r in crossing]
     obs = _guarded(lambda: base.parallel_function(func, ([r] for r in crossing), cpus=case["cpus"]),
                    case.get("limit", 30.0))
     if obs.get("blocked"):
         _kill_children()
-    out: Dict[str, Any] = {"pickle_problems": [p for p in pickled if p]}
+    out: Dict[str, Any] = {"pickle_problems": [p for p in pickled if p], "given": given}
     if "ret" in reference and "ret" in obs:
         out["problems"] = _compare(obs["ret"], reference["ret"])
         out["same_objects"] = all(a is b for a, b in zip(obs["ret"], crossing))
         out["ids"] = [r.id for r in obs["ret"]]
         out["objects"] = sum(len(canon(r)[1]) for r in obs["ret"])
+        out["content"] = [content(r) for r in obs["ret"]]       # after the graph comparison (fills caches)
     else:
         ref_obs = {k: v for k, v in reference.items() if k != "ret"} or {"ok": True}
         got_obs = {k: v for k, v in obs.items() if k != "ret"} or {"ok": True}
